@@ -70,7 +70,8 @@ def main(what, args):
                 continue
             status, info, wall = run_mutant(m)
             expect = "survived" if m.get("expect") == "pass" else "killed"
-            ok = status == expect
+            ok = status == expect or (m.get("expect") == "either"
+                                      and status in ("killed", "survived"))
             bad += not ok
             print(f"{'ok  ' if ok else 'FAIL'} {m['id']:45s} {m['prop']} "
                   f"{status:14s} {wall:6.1f}s  {info if not ok or status == 'killed' else ''}",
